@@ -35,7 +35,7 @@ STUBS = ["Register.get_hex_value / RegsBitField.get_hex_value -> HexNum(str) car
          "summary proved against the real value_to_int in C11 (hexsummary/*)",
          "get_bytes_cnt_of_int -> verified loop-free summary (proved in C11)", "check_config (JSON schema validation) -> no-op "
          "in the symbolic run", "RegsBitField.get_enum_value of a symbolic value -> number (enum names: C11)"]
-MUST_REACH = ["bin\\..*", "cfg\\..*", "computed\\..*", "xmcd\\..*"]
+MUST_REACH = ["bin\\..*", "cfg\\..*", "computed\\..*", "xmcd\\..*", "rotkh\\..*"]
 OPTS = {"quick": {"case_timeout_s": 400, "max_paths": 3000}, "thorough": {"case_timeout_s": 2400, "max_paths": 30000}}
 
 
@@ -58,7 +58,9 @@ def setup(symbolic):
         from symx import loader, summaries, shims
         real_cnt = M.get_bytes_cnt_of_int
         loader.patch_everywhere(real_cnt, summaries.bytes_cnt_summary(real_cnt, 66))
-        from symx import hexnum
+        from symx import hexnum, stubs
+        import spsdk.crypto.hash as HM
+        loader.patch_everywhere(HM.get_hash, stubs.get_hash)
         hexnum.install_value_to_int()
         # a config_as_hexstring register is stored as bare hexadecimal digits, every other one with the 0x prefix
         R.Register.get_hex_value = lambda self, raw=False: (lambda v: HexNum(
@@ -296,10 +298,58 @@ def h_xmcdsize(env, c):
     env.prove(not back.verify().has_errors, "xmcd.loaded_block_verifies")
 
 
+def h_rotkh(env, c):
+    """PFR export with root keys: the ROTKH field of the exported page is the RoT hash of exactly these keys, zero padded to
+    the field, whatever the field held before (a 256-bit hash in a 384-bit field leaves no old bytes behind)."""
+    from harness import c03_rot
+    key = tuple(c["key"])
+    area = make("pfr", key)
+    regs = area.registers.get_registers()
+    idx = [i for i, r in enumerate(regs) if r.name == area.ROTKH_REGISTER][0]
+    set_symbolic(env, "pfr", area, only={(0, idx)})            # earlier content of the field: arbitrary
+    reg = regs[idx]
+    cls = area.get_cert_block_class(family=area.family)
+    if cls.__name__ == "RKHTv1":
+        keys = c03_rot._rsa_keys(env, {"bits": 2048, "n": c["n"]})
+    else:
+        keys = c03_rot._ecc_keys(env, {"curve": c["curve"], "n": c["n"]})
+    rkth = list(cls.from_keys(keys=keys).rkth())
+    w = reg.width // 8
+    # a field value that begins with 128 zero bits would be taken for a value of the narrower alternative width of the
+    # register; for a hash that has probability 2^-128 - assumed away (the hash is an uninterpreted function here)
+    env.assume(env.Or(*[x != 0 for x in rkth[:16]]))
+    data = list(area.export(keys=keys, draw=False))
+    env.prove(len(rkth) <= w, "rotkh.hash_fits_field")
+    field = data[reg.offset: reg.offset + w]
+    env.prove(env.bytes_eq(field[:len(rkth)], rkth), "rotkh.field_starts_with_the_rot_hash_of_the_keys")
+    env.prove(env.And(*[x == 0 for x in field[len(rkth):]]) if len(rkth) < w else True, "rotkh.rest_of_field_is_zero")
+    # and the page parses back to the same field
+    back = parse("pfr", key, bytes(data) if not env.symbolic else area.export(keys=keys, draw=False))
+    env.prove(env.bytes_eq(list(export("pfr", back))[reg.offset: reg.offset + w], field), "rotkh.parse_keeps_field")
+
+
 def cases(tier):
     q = tier == "quick"
     cs = []
     seen = {}
+    seen_rotkh = set()
+    for kind, key, sig in all_areas():
+        if kind != "pfr":
+            continue
+        area = make(kind, key)
+        try:
+            reg = area.registers.find_reg(area.ROTKH_REGISTER)
+        except Exception:
+            continue
+        cname = area.get_cert_block_class(family=area.family).__name__
+        k = (reg.width, cname, tuple(reg.alt_widths or ()))
+        if q and k in seen_rotkh:
+            continue
+        seen_rotkh.add(k)
+        for curve, n in ((("secp256r1", 2), ("secp384r1", 1)) if cname != "RKHTv1" else (("rsa", 2),)):
+            if curve == "secp384r1" and reg.width < 384:
+                continue
+            cs.append({"id": f"rotkh/{'/'.join(key)}/{curve}/n={n}", "h": "rotkh", "key": list(key), "curve": curve, "n": n, "weight": 3})
     for kind, key, sig in all_areas():
         if q and sig in seen:
             continue
